@@ -17,7 +17,7 @@ RULE = (
     "case kinds: biot_savart_2d on generated sheet currents (5..60 elements, areas given or None, z0, evaluation points off the plane, 9 unit "
     "combinations, scalar and vector); current_loop_vector_potential on generated radii/centres/points vs quadrature; convert_field round trips; "
     "cdist vs numpy; Solution.field_at_position / vector_potential_at_position on short generated solutions (static and time-dependent applied "
-    "potential, any recorded step); non-trivial = >= 10 current elements and >= 3 evaluation points with |B| above 1e-3 of its maximum; distinct by spec hash"
+    "potential, any recorded step, optionally preceded by another evaluation on the same Solution at the same (x, y) and a different height or at other points); non-trivial = >= 10 current elements and >= 3 evaluation points with |B| above 1e-3 of its maximum; distinct by spec hash"
 )
 ASSUMPTIONS = [
     "mu_0 from scipy.constants; lengths/currents converted by an explicit table",
@@ -87,6 +87,8 @@ def _solution_case(draw, tier):
                 z0=draw(st.sampled_from([0.0, 0.25])),
                 pts=[[draw(st.floats(-3, 3)), draw(st.floats(-3, 3)), draw(st.sampled_from([1, -1])) * draw(st.floats(0.1, 2.0))] for _ in range(draw(st.integers(1, 5)))],
                 zmode=draw(st.sampled_from(["column", "zs_array", "zs_scalar"])), vector=draw(st.booleans()),
+                # what the same Solution object was asked just before: nothing, the same (x, y) at another height, or other points
+                prime=draw(st.sampled_from([None, "same_xy_other_z", "same_xy_other_z", "other_points"])),
                 intpos=draw(st.integers(0, 3)) == 0,
                 units=draw(st.sampled_from([None, "mT", "uA/um"])))
 
@@ -304,6 +306,9 @@ def _solution(spec, res):
         Kn = sol.normal_current_density.to("A / m").magnitude
         # ---- field
         try:
+            if spec.get("prime"):
+                xy0 = pts[:, :2] if spec["prime"] == "same_xy_other_z" else pts[::-1, :2] + 1
+                sol.field_at_position(xy0, zs=float(np.max(np.abs(zz))) + 2.5 + spec["z0"], units="T", with_units=False)
             parts = sol.field_at_position(*args, vector=spec["vector"], units="T", with_units=False, return_sum=False, **kw)
             total = sol.field_at_position(*args, vector=spec["vector"], units="T", with_units=False, return_sum=True, **kw)
         except Exception as exc:  # noqa: BLE001
@@ -326,6 +331,12 @@ def _solution(spec, res):
                 res.fail("C20.field_units", f"field in units {spec['units']} is not the tesla value converted")
         # ---- vector potential
         try:
+            if spec.get("prime"):
+                # an earlier evaluation on the same Solution must not influence the next one
+                res.label(f"preceded by an evaluation at {spec['prime'].replace('_', ' ')}")
+                xy0 = pts[:, :2] if spec["prime"] == "same_xy_other_z" else pts[::-1, :2] + 1
+                sol.vector_potential_at_position(xy0, zs=float(np.max(np.abs(zz))) + 1.5 + spec["z0"], units="T * m", with_units=False)
+                sol.field_at_position(xy0, zs=float(np.max(np.abs(zz))) + 2.5 + spec["z0"], units="T", with_units=False)
             vp = sol.vector_potential_at_position(*args, units="T * m", with_units=False, return_sum=False, **kw)
             vsum = sol.vector_potential_at_position(*args, units="T * m", with_units=False, return_sum=True, **kw)
         except Exception as exc:  # noqa: BLE001
